@@ -184,9 +184,8 @@ and the meaning of every live `Function`.
 `apply` with a quantifier alias quantifies over the support of its first operand (the names are
 declared: C10 + the order invariant); `let` with `Function` values needs the values to be
 `Function`s of this manager; `declare` never reorders.
-NOT covered with reordering enabled (named here, not proved): the operations that are not
-protected against a reordering in the middle — `image`, `preimage`, the raw `find_or_add`
-(finding F4c). -/
+`image` / `preimage` with reordering enabled are in `C08_image_dyn` below (repair of finding
+F4c); not covered: the raw `find_or_add`. -/
 theorem C08_ops_dyn (a : AMgr) (h : Nat) :
     (∀ hg hu hv, AKeepsAt false a h (aIte hg hu hv h)) ∧
     (∀ op c, docConn op = some c → c.arity = 2 → c ≠ .forall_ → c ≠ .exists_ →
@@ -230,6 +229,62 @@ theorem C08_ops_dyn (a : AMgr) (h : Nat) :
    fun op hs => fApply_unary_keeps op hs h,
    fun hs ho => fLe_keepsDyn hs ho, fun hs ho => fLt_keepsDyn hs ho,
    fun src _ hu hsrc hpre => aCopyTo_keepsAtDyn a src hsrc hu h hpre⟩
+
+/-- reordering possibly enabled, `image` / `preimage` (since the repair of F4c they run inside the
+decorator with their arguments turned into names; from `C09_image_transparent` /
+`C09_preimage_transparent`): operands live `Function`s, renaming and `qvars` by declared names,
+the preconditions by name.  The invariant (count equation included) is kept, no handle other than
+the new one is touched, every live `Function` keeps its node and its meaning by name — at
+whichever `find_or_add` a reordering is requested. -/
+theorem C08_image_dyn (a : AMgr) (h : Nat) (ht hs : Nat) (l : List (String × String))
+    (qs : List String) (fa : Bool) :
+    ((∀ t s, a.handles[ht]? = some t → a.handles[hs]? = some s → ImagePre t s l qs a.m.tbl) →
+      AKeepsAt false a h (aImage false ht hs (l.map fun p => (Key.name p.1, Key.name p.2))
+        (qs.map Key.name) fa h)) ∧
+    ((∀ s, a.handles[hs]? = some s → PreimagePreN s l qs a.m.tbl) →
+      AKeepsAt false a h (aImage true ht hs (l.map fun p => (Key.name p.1, Key.name p.2))
+        (qs.map Key.name) fa h)) :=
+  ⟨fun hpre => aImage_image_keepsAtDyn a ht hs l qs fa h hpre,
+   fun hpre => aImage_preimage_keepsAtDyn a ht hs l qs fa h hpre⟩
+
+/-- non-vacuity (`C08_image_dyn`): the preconditions by name on the C09 example manager -/
+example : ImagePre 4 1 [("b", "a")] ["a"] exDyn.tbl ∧ PreimagePreN 1 [("a", "b")] ["b"] exDyn.tbl := by
+  constructor
+  · refine ⟨by simp, ?_, ?_, ?_, ?_⟩
+    · intro p hp
+      simp only [List.mem_cons, List.not_mem_nil, or_false] at hp
+      subst hp
+      exact ⟨by decide, by decide⟩
+    · intro s hs
+      simp only [List.mem_cons, List.not_mem_nil, or_false] at hs
+      subst hs
+      decide
+    · intro p p' hp hp'
+      simp only [List.mem_cons, List.not_mem_nil, or_false] at hp hp'
+      subst hp hp'
+      decide
+    · intro p hp
+      simp only [List.mem_cons, List.not_mem_nil, or_false] at hp
+      subst hp
+      exact Or.inl (by simp)
+  · refine ⟨by simp, ?_, ?_, ?_, ?_, ?_⟩
+    · intro p hp
+      simp only [List.mem_cons, List.not_mem_nil, or_false] at hp
+      subst hp
+      exact ⟨by decide, by decide⟩
+    · intro s hs
+      simp only [List.mem_cons, List.not_mem_nil, or_false] at hs
+      subst hs
+      decide
+    · intro p p' hp hp'
+      simp only [List.mem_cons, List.not_mem_nil, or_false] at hp hp'
+      subst hp hp'
+      decide
+    · intro p p' hp hp' _
+      simp only [List.mem_cons, List.not_mem_nil, or_false] at hp hp'
+      rw [hp, hp']
+    · intro p _
+      exact not_dependsOnN_one _ _
 
 /-- non-vacuity of the mode: the C09 example manager (reordering enabled, two variables) -/
 example : DynInv exExt exDyn := exDyn_dynInv
